@@ -7,7 +7,7 @@
    a "reader" is the pair (file-handle line, GroFile._current_atom). *)
 From Coq Require Import ZArith String List.
 From GM Require Import Base.Res Model.SystemGro Proofs.SystemGroInit Proofs.SystemGroAccess Proofs.SystemGroMain
-  Proofs.SystemGroExamples.
+  Proofs.SystemGroComp Proofs.SystemGroSlice Proofs.SystemGroExamples.
 Import ListNotations.
 Local Open Scope nat_scope.
 
@@ -81,6 +81,27 @@ Theorem C12_index_out_of_range : forall f st s st0 st1 rs,
 Proof. exact index_out_of_range. Qed.
 Print Assumptions C12_index_out_of_range.
 
+(* A slice with a non-zero step never fails: it returns the iterated residues at the positions Python's
+   slice arithmetic designates (py_slice_indices), all inside the list, from any reader state. *)
+Theorem C12_slice_total : forall f st s st0 st1 rs,
+  init f = (st, Ok s) -> iter_all f s st0 = (st1, Ok rs) ->
+  forall a b c stx, c <> Some 0%Z ->
+  exists idxs l sty, py_slice_indices (length rs) a b c = Ok idxs /\
+    getitem_slice f s a b c stx = (sty, Ok l) /\ length l = length idxs /\
+    forall j k, nth_error idxs j = Some k -> k < length rs /\ nth_error l j = nth_error rs k.
+Proof. exact slice_total. Qed.
+Print Assumptions C12_slice_total.
+
+(* ... and the everyday case needs no trust in the slice arithmetic: system[a:b] with 0 <= a <= b <= len
+   is the block of iterated residues a .. b-1 *)
+Theorem C12_slice_block : forall f st s st0 st1 rs,
+  init f = (st, Ok s) -> iter_all f s st0 = (st1, Ok rs) ->
+  forall a b stx, a <= b -> b <= length rs ->
+  exists sty, getitem_slice f s (Some (Z.of_nat a)) (Some (Z.of_nat b)) None stx =
+              (sty, Ok (firstn (b - a) (skipn a rs))).
+Proof. exact slice_block. Qed.
+Print Assumptions C12_slice_block.
+
 (* len = number of residues, n_atoms = number of records = total size of the residues; the run-length
    expansion lists the template index of every generator entry; box and title are the file's. *)
 Theorem C12_counts : forall f st s st0 st1 rs,
@@ -90,6 +111,14 @@ Theorem C12_counts : forall f st s st0 st1 rs,
   box_matrix f = g_box f /\ comment_line f = g_title f.
 Proof. exact counts. Qed.
 Print Assumptions C12_counts.
+
+(* composition[name] = number of iterated residues with that name (templates are looked up through the
+   run-length list; a template always carries the name of the residues recorded under it) *)
+Theorem C12_composition : forall f st s st0 st1 rs,
+  init f = (st, Ok s) -> iter_all f s st0 = (st1, Ok rs) ->
+  exists c, composition s = Ok c /\ forall name, counter_get name c = count_name name rs.
+Proof. exact composition_counts. Qed.
+Print Assumptions C12_composition.
 
 (* ---- non-vacuity: the hypotheses are met by concrete files (Proofs/SystemGroExamples.v) ---- *)
 (* D9: (1,"2AB") next to (12,"AB") - both have residname "12AB" - are two residues *)
